@@ -8,7 +8,7 @@ variable {S : Type}
 
 /-- `(curr_combo, n_hold_notes)` step of the gradual path. -/
 def maniaAccStep (a : Nat × Nat) (o : ManiaObj) : Nat × Nat :=
-  if o.isCircle then (a.1 + 1, a.2) else (a.1 + o.incGrad, a.2 + 1)
+  if o.isCircle then (a.1 + o.incOne, a.2) else (a.1 + o.incOne, a.2 + 1)
 
 def maniaGradPrefix (objs : List ManiaObj) (k : Nat) : Nat × Nat :=
   (objs.take k).foldl maniaAccStep (0, 0)
